@@ -21,6 +21,7 @@ OpSpace ==
   \cup (IF "spawn" \in Kinds /\ Len(procs) < MaxProc /\ Room(2) THEN {Op("spawn", 0, 0, 0, Z)} ELSE {})
   \cup (IF "spawnnp" \in Kinds /\ Len(procs) < MaxProc /\ Room(2) THEN {Op("spawn", 0, 1, 0, Z)} ELSE {})
   \cup (IF "interrupt" \in Kinds /\ Room(1) THEN {Op("interrupt", q, 0, 0, Z) : q \in 1..Len(procs)} ELSE {})
+  \cup (IF "interruptn" \in Kinds /\ Room(1) THEN {Op("interrupt", q, 1, 0, Z) : q \in 1..Len(procs)} ELSE {})
   \cup (IF "cond" \in Kinds /\ Room(1) THEN {Op("cond", a, 1, 0, s) : a \in {0, 1}, s \in KidSeqs} ELSE {})
   \cup (IF "condnoprobe" \in Kinds /\ Room(1) THEN {Op("cond", a, 0, 0, s) : a \in {0, 1}, s \in KidSeqs} ELSE {})
   \cup (IF "baddelay" \in Kinds THEN {Op("baddelay", 0, 0, 0, Z)} ELSE {})
